@@ -95,3 +95,33 @@ Lemma load_enh_last dr dw es e : forall m,
                (match c_read (eu_acl e) with Some p => PPrefix p | None => dr end)
                (match c_write (eu_acl e) with Some p => PPrefix p | None => dw end)).
 Proof. intros m. rewrite fold_left_app. cbn [fold_left]. unfold load_enh. apply lookup_put_same. Qed.
+
+(* ---- topic aliases cannot carry a publish past the ACL ---- *)
+Definition tbl_ok (allowed : N -> bool) (tbl : list (N * N)) : Prop := forall a t, alias_get a tbl = Some t -> allowed t = true.
+
+Lemma alias_pub_ok allowed tbl t a :
+  tbl_ok allowed tbl ->
+  tbl_ok allowed (fst (alias_pub allowed tbl t a)) /\
+  (forall tp, snd (alias_pub allowed tbl t a) = ARouted tp -> allowed tp = true).
+Proof.
+  intros HT. unfold alias_pub. destruct t as [tp|].
+  - destruct (allowed tp) eqn:Ha; cbn [fst snd].
+    + split.
+      * destruct (N.eqb a 0); [exact HT|]. intros a' t' H. cbn [alias_get] in H.
+        destruct (N.eqb a a'); [inversion H; subst; exact Ha | apply (HT a' t' H)].
+      * intros tp' H. inversion H; subst. exact Ha.
+    + split; [exact HT | intros tp' H; discriminate].
+  - destruct (alias_get a tbl) as [tp|] eqn:Hg; cbn [fst snd].
+    + split; [exact HT | intros tp' H; inversion H; subst; apply (HT a tp' Hg)].
+    + split; [exact HT | intros tp' H; discriminate].
+Qed.
+
+Lemma alias_run_ok allowed ps : forall tbl, tbl_ok allowed tbl ->
+  forall tp, In (ARouted tp) (alias_run allowed tbl ps) -> allowed tp = true.
+Proof.
+  induction ps as [|[t a] ps IH]; intros tbl HT tp Hin; cbn [alias_run] in Hin; [destruct Hin|].
+  pose proof (alias_pub_ok allowed tbl t a HT) as [H1 H2].
+  destruct (alias_pub allowed tbl t a) as [tbl' v]. cbn [fst snd] in *.
+  destruct Hin as [Hv|Hin]; [subst v; apply H2; reflexivity|].
+  destruct v; [apply (IH tbl' H1 tp Hin) | apply (IH tbl' H1 tp Hin) | destruct Hin].
+Qed.
